@@ -306,8 +306,8 @@ fn eval_ops_inner(req: &str) -> ImplOut {
                 match post_names.iter().find(|(n2, s2, _)| n2 == n && s2 == sid) {
                     None => out = out.fail("c32:rename:name-lost", &format!("{n} {sid:?}")),
                     Some((_, _, f2)) => {
-                        let old_name = spec.sheets.get(pre_ids.iter().position(|x| Some(*x) == affected).unwrap_or(99)).cloned().unwrap_or_default();
-                        if !fo.contains(&quote(&old_name)) && !fo.contains(&old_name) && f2 != fo {
+                        let old_name = spec.sheets.get(pre_ids.iter().position(|x| Some(*x) == affected).unwrap_or(99)).cloned().unwrap_or_default().replace('\'', "''");
+                        if !fo.contains(&old_name) && f2 != fo {
                             out = out.fail("c32:rename:unrelated-name-formula-changed", &format!("{n}: {fo} -> {f2}"));
                         }
                     }
@@ -341,7 +341,8 @@ fn eval_ops_inner(req: &str) -> ImplOut {
                 );
             }
             // cells of other sheets whose formulas do not mention the deleted sheet keep their value
-            let del_name = spec.sheets.get(pre_ids.iter().position(|x| *x == del).unwrap_or(99)).cloned().unwrap_or_default();
+            // as it appears inside formulas (an apostrophe is doubled inside the quotes)
+            let del_name = spec.sheets.get(pre_ids.iter().position(|x| *x == del).unwrap_or(99)).cloned().unwrap_or_default().replace('\'', "''");
             let names_on_deleted: Vec<String> = pre_names
                 .iter()
                 .filter(|(_, sid, fo)| *sid == Some(del) || fo.contains(&del_name))
@@ -530,7 +531,7 @@ fn gen_case(rng: &mut Rng, lang: &str, locale: &str) -> (Spec, Spec, NOp, NOp) {
 
 fn gen_ops(ctx: &Ctx, sink: &mut dyn FnMut(String)) {
     let mut rng = Rng::new(ctx.seed ^ 0xC32);
-    let n = if ctx.tier == Tier::Quick { 14 } else { 400 };
+    let n = if ctx.tier == Tier::Quick { 40 } else { 400 };
     // witnesses first: rename under `es` with a LAMBDA name stored with '=' (F10a), delete of a scoped name's sheet (F27a)
     for (lang, locale) in [("es", "es"), ("en", "en"), ("de", "de")] {
         let sep = if locale == "en" { "," } else { ";" };
